@@ -46,7 +46,7 @@ partial def toJVal : Json → Except String JVal
       pure (.obj ps t)
     | _ =>
     match j.getObjVal? "x" with
-    | .ok (.str x) => pure (.opaque (s2l x) (getBoolD j "b"))
+    | .ok (.str x) => pure (.other (s2l x) (getBoolD j "b"))
     | _ => throw "bad value encoding"
   | .arr _ => throw "bare array"
 
